@@ -439,7 +439,7 @@ def gen_load(world, rng, cnt, starts, bias=None):
         'param', 'interp', 'track', 'mode', 'too_long', 'new_short', 'first_nonzero', 'decreasing',
         'unequal', 'duplicate', 'zero_times', 'append_wrong_start', 'append_gap', 'append_overlap',
         'bad_start', 'bad_coord', 'random_times', 'negative_times', 'append_zero', 'new_over_live',
-        'append_from_zero']
+        'append_from_zero', 'append_near_start', 'append_near_start']
     kind = bias or rng.choice(kinds)
     mode = 2 if kind.startswith('append') else 1
     start = starts[0]
@@ -450,6 +450,8 @@ def gen_load(world, rng, cnt, starts, bias=None):
     if mode == 2 and len(table) >= 2:
         delta = table[1] - table[0]
     first = 0 if mode == 1 else (table[-1] + delta if table else delta)
+    if mode == 1 and rng.random() < 0.3:
+        start = rng.choice(starts)          # a new table may move the start time
     if mode == 2 and ps.start_time is not None:
         start = world.last_start_bits
     times = None
@@ -485,6 +487,16 @@ def gen_load(world, rng, cnt, starts, bias=None):
         times = [first] * n
     elif kind == 'append_wrong_start':
         start = rng.choice([s for s in starts if s != start] or [bits_of(0.0)])
+    elif kind == 'append_near_start':
+        # a valid append but for a start time a few microseconds .. one millisecond off
+        if ps.start_time is not None:
+            from simulators import utils
+            off = rng.choice([1, -1, 2, 400, -400, 999, -999, 1000, -1000, 1001, 5000, 0])
+            try:
+                start = bits_of(utils.mjd(ps.start_time - ps.time_source_offset
+                                          + _dt.timedelta(microseconds=off)))
+            except (ValueError, OverflowError):
+                pass
     elif kind == 'append_gap':
         first += rng.choice([1, delta, -1 if delta > 1 else 1])
     elif kind == 'append_overlap':
@@ -638,7 +650,7 @@ def record_case(ctx, rng, nops, corpus_ops=None, cfg=None):
     return term, dict(offset_ms=offset_ms, tso_s=tso_s, ops=[o.to_json() for o in ops])
 
 
-def correspondence(ctx):
+def gen_cases(ctx):
     rng = ctx.rng
     cases = []
     for path, obj in corpus_items():
@@ -651,6 +663,11 @@ def correspondence(ctx):
     for k in range(n):
         term, _ = record_case(ctx, rng, rng.choice([3, 5, 8, 8, 11, 14]))
         cases.append(term)
+    return cases
+
+
+def correspondence(ctx):
+    cases = gen_cases(ctx)
     ctx.sample(cases[len(cases) // 2][:1500])
     ctx.run_cases('track_histories', 'From DS Require Import Model.AtrkModel Corr.AtrkCorr.',
                   'tcase', 'ok', cases, show='show',
